@@ -153,7 +153,7 @@ func LocationFunctions(ctx *Context, loc *Location, runtime *otto.Otto, env map[
 			throwJavascript(call.Otto.Call("new Error", nil, "No object (second arg) given"))
 		}
 
-		m, ok := x.(map[string]interface{})
+		m, ok := jsonTypes(x).(map[string]interface{})
 		if !ok {
 			throwJavascript(call.Otto.Call("new Error", nil, "Bad object (second arg) given"))
 		}
@@ -184,7 +184,7 @@ func LocationFunctions(ctx *Context, loc *Location, runtime *otto.Otto, env map[
 			throwJavascript(call.Otto.Call("new Error", nil, "No object (second arg) given"))
 		}
 
-		m, ok := x.(map[string]interface{})
+		m, ok := jsonTypes(x).(map[string]interface{})
 		if !ok {
 			throwJavascript(call.Otto.Call("new Error", nil, "Bad object (second arg) given"))
 		}
@@ -210,7 +210,7 @@ func LocationFunctions(ctx *Context, loc *Location, runtime *otto.Otto, env map[
 			throwJavascript(call.Otto.Call("new Error", nil, "No object (first arg) given"))
 		}
 
-		m, ok := x.(map[string]interface{})
+		m, ok := jsonTypes(x).(map[string]interface{})
 		if !ok {
 			throwJavascript(call.Otto.Call("new Error", nil, "Bad object (first arg) given"))
 		}
@@ -236,7 +236,7 @@ func LocationFunctions(ctx *Context, loc *Location, runtime *otto.Otto, env map[
 			throwJavascript(call.Otto.Call("new Error", nil, "No object (first arg) given"))
 		}
 
-		m, ok := x.(map[string]interface{})
+		m, ok := jsonTypes(x).(map[string]interface{})
 		if !ok {
 			throwJavascript(call.Otto.Call("new Error", nil, "Bad object (first arg) given"))
 		}
@@ -498,6 +498,29 @@ func (cs *CommandSpec) Exec(ctx *Context) error {
 // action, which fails.  Change JavascriptTestValue to something
 // agreeable.  Re-attempt the event work and celebrate sweet victory.
 var JavascriptTestValue interface{}
+
+// jsonTypes gives what a script handed us the types that the same
+// value has when it arrives as JSON (or comes back from storage).
+//
+// The interpreter exports [1,2] as []int64, ["a"] as []string, [{}]
+// as []map[string]interface{}, 1 as int64 and so on.  Neither the
+// matcher nor the term index treat those like the []interface{} and
+// float64 of the same JSON value, so a fact written by a script was
+// not found by patterns that find it after the next load.
+//
+// What cannot be rendered (NaN, say) is returned as it is, and the
+// operation that gets it will complain.
+func jsonTypes(x interface{}) interface{} {
+	js, err := json.Marshal(x)
+	if err != nil {
+		return x
+	}
+	var y interface{}
+	if err = json.Unmarshal(js, &y); err != nil {
+		return x
+	}
+	return y
+}
 
 // RunJavascript executes Javascript code with the given bindings.  A
 // new environment is created for each call.  That environment
